@@ -109,6 +109,30 @@ pub fn define_variable(
     Ok(index)
 }
 
+/// Forget what the current scope recorded, by name, about the variable `name` that a pattern is
+/// about to bind again. The new binding is a different variable: the scope's narrowings of the
+/// old one must not apply to it, and a provenance that goes through the old one no longer leads
+/// anywhere. (Provenances held by outer scopes are left alone: they are valid again once this
+/// scope ends, and `lookup_variable_provenance` disregards the shadowed parts meanwhile.)
+pub fn forget_variable(scopes: &mut [Scope], name: &str) {
+    let Some(scope) = scopes.last_mut() else {
+        return;
+    };
+    scope.narrowings.variables.remove(name);
+    scope
+        .narrowings
+        .fields
+        .retain(|(provenance, _, _)| provenance.without_variable(name) == *provenance);
+    for binding in scope.bindings.values_mut() {
+        if let Binding::Variable { provenance, .. } = binding {
+            *provenance = provenance.without_variable(name);
+        }
+    }
+    if let Some(parameter) = &mut scope.parameter {
+        parameter.provenance = parameter.provenance.without_variable(name);
+    }
+}
+
 /// Define a new type alias in the current scope
 pub fn define_type_alias(scopes: &mut [Scope], name: String, type_alias: TypeAliasDef) {
     if let Some(scope) = scopes.last_mut() {
@@ -169,9 +193,19 @@ pub fn lookup_declared_variable_type(scopes: &[Scope], name: &str) -> Option<usi
 pub fn lookup_variable_provenance(scopes: &[Scope], name: &str) -> Option<super::Provenance> {
     let full_name = helpers::make_capture_name(name, &[]);
 
-    for scope in scopes.iter().rev() {
+    for (index, scope) in scopes.iter().enumerate().rev() {
         if let Some(Binding::Variable { provenance, .. }) = scope.bindings.get(&full_name) {
-            return Some(provenance.clone());
+            // Provenances refer to variables by name, as visible from the scope that holds them.
+            // A name bound again in an inner scope means another variable here.
+            let mut provenance = provenance.clone();
+            for inner in &scopes[index + 1..] {
+                for (shadowing, binding) in &inner.bindings {
+                    if matches!(binding, Binding::Variable { .. }) {
+                        provenance = provenance.without_variable(shadowing);
+                    }
+                }
+            }
+            return Some(provenance);
         }
     }
     None
